@@ -74,6 +74,26 @@ def run(tier, wd):
     for text, obj in bad[:10]:
         rep.violation(text, obj)
     rep.cov["matcher_calls_validated"] = ncalls
+    # (4) "the values written", for the built-in types: the variable holds the written numerals/words as the type reads them in base 10
+    # (zero-padded and signed numerals included); Values.tla says which tokens end up in the variable
+    from vlib import values as V
+    from props import valcommon as vc
+    vcases, vabs = [], []
+    for typ in V.BUILTIN:
+        for role in ("opt", "arg"):
+            for clipat in [("valid",), ("valid", "valid"), ("valid", "valid", "valid")]:
+                for rep_ in range(2 if tier == "quick" else 12):
+                    c_, a_ = V.concrete(typ, role, rep_ % 2 == 1, V.DEFAULTS[typ][0], (), clipat, rnd)
+                    vcases.append(c_)
+                    vabs.append(a_)
+    for case, a_, clean, dev, r in vc.run_cases(rep, wd, binpath, vcases, vabs, "typed"):
+        if r.get("skipped"):
+            continue
+        want = V.expected_value(case, clean, r) if not (r.get("hang") or r.get("crash")) else None
+        if r.get("hang") or r.get("crash") or not r["ran"] or r["value"] != want:
+            rep.violation("%s: variable is %s (ran=%s err=%s), written: %s" % (vc.describe(case), r.get("value"), r.get("ran"), r.get("err"), want),
+                          {"engine": "values", "case": case, "expected": want})
+    rep.cov["typed_cases"] = len(vcases)
     rep.cov["evaluations"] += ncalls
     rep.cov["classes"] = dict(cnt)
     rep.cov["ambiguous_cases"] = ambiguous
@@ -81,7 +101,8 @@ def run(tier, wd):
     rep.cov["rule"] = ("(1) every spec of the family x every argument vector over the alphabet up to maxlen; (2) random sentences of further specs with "
                        "every occurrence in a random documented spelling/folding. For every case the library's per-variable sequences of Set calls "
                        "must be one of the derivations RefSemantics.tla admits; non-trivial = accepted with at least two bound tokens; "
-                       "ambiguous = the reference admits several derivations; (3) every Matcher.Match call of those runs validated against Matchers.tla")
+                       "ambiguous = the reference admits several derivations; (3) every Matcher.Match call of those runs validated against Matchers.tla; "
+                       "(4) 7 built-in types x option/argument x 1..3 written values: the variable holds them as read in base 10 (Values.tla)")
     rep.assumptions += ["standard program (see C01), all variables declared with a recording value type, so repeated values and their order are observed",
                         "verdict disagreements are C01's business and not reported here"]
     return rep.finish()
@@ -101,6 +122,9 @@ def replay(path, wd):
         for t, _ in bad:
             print("replay:", t)
         return 1 if bad else 0
+    if o.get("engine") == "values":
+        from props import valcommon as vc
+        return vc.replay_values(path, wd, lambda o, r: not (r.get("ran") and r.get("value") == o["expected"]))
     if o.get("engine") == "refgroups":
         return gc.rerun_replay(path, wd, law="oracle")
     return rc.rerun_replay(path, wd, is_violation)
